@@ -70,6 +70,7 @@ def execGeneric (t : List String) : String :=
     | none, _, _ => "nomodel"
     | _, _, _ => "bad-op"
   | [op, c, _shape, _off, k, d] =>
+    if op != "encs" && op != "decs" then "nomodel" else
     match findCipher c, parseHex k, parseHex d with
     | some m, some key, some data =>
       if data.length % m.blockLen ≠ 0 then "bad-op" else
